@@ -411,18 +411,18 @@ Section Gen.
   Qed.
   Lemma wf_wild_inv var : wf_wild var = true ->
     v_is KWildcard var = true /\ var_common_w var = true /\ v_nillable var = false /\ v_wrapper_qname var = None
-    /\ v_clazz var = None /\ v_tokens_factory var = None /\ v_sequence var = None /\ match_namespace var (v_qname var) = true
+    /\ v_clazz var = None /\ v_tokens_factory var = None /\ True /\ match_namespace var (v_qname var) = true
     /\ v_is KText var = false /\ v_is KElement var = false /\ v_is KElements var = false
     /\ match v_factory var with
        | None => v_default var = DNone
        | Some f => f = FList /\ v_default var = DFactoryList
        end.
   Proof.
-    unfold wf_wild. intros H. peel H H8. peel H H7. peel H H6. peel H H5. peel H H4. peel H H3. peel H H2. peel H H1.
+    unfold wf_wild. intros H. peel H H8. peel H H7. peel H H5. peel H H4. peel H H3. peel H H2. peel H H1.
     apply negb_true_iff in H2. unfold no_wrapper in H3.
     destruct (v_wrapper_qname var); [discriminate|]. destruct (v_clazz var); [discriminate|].
-    destruct (v_tokens_factory var); [discriminate|]. destruct (v_sequence var); [discriminate|].
-    repeat (split; [first [assumption|reflexivity]|]).
+    destruct (v_tokens_factory var); [discriminate|].
+    repeat (split; [first [assumption|reflexivity|exact I]|]).
     split; [unfold v_is in *; destruct (v_kind var); try discriminate H; reflexivity|].
     split; [unfold v_is in *; destruct (v_kind var); try discriminate H; reflexivity|].
     split; [unfold v_is in *; destruct (v_kind var); try discriminate H; reflexivity|].
@@ -961,7 +961,7 @@ Section Gen.
 
   Definition any_elem (var : xvar) : Prop :=
     v_types var = [TObject] /\ v_clazz var = None /\ v_tokens_factory var = None /\ v_factory var = None
-    /\ v_nillable var = false /\ v_default var = DNone /\ v_sequence var = None /\ v_any_type var = true.
+    /\ v_nillable var = false /\ v_default var = DNone /\ v_any_type var = true.
 
   Lemma wf_elem_inv var : wf_elem var = true ->
     kind_elem var /\ var_common var = true
@@ -980,13 +980,12 @@ Section Gen.
     destruct t as [| | | | | | | | | | | | |e|k]; try (right; left; apply (Hsimple _ eq_refl H1)); try discriminate H1.
     - right. right. left. peel H1 H3. peel H1 H2. split; [reflexivity|].
       destruct (v_clazz var); [discriminate|]. destruct (v_tokens_factory var); [discriminate|]. split; reflexivity.
-    - right. right. right. peel H1 G6. peel H1 G5. peel H1 G4. peel H1 G3. peel H1 G2.
+    - right. right. right. peel H1 G5. peel H1 G4. peel H1 G3. peel H1 G2.
       apply negb_true_iff in H1.
       destruct (var_common_inv var H0) as [_ [_ [Hany _]]]. unfold is_object in Hany. rewrite Ety in Hany.
       unfold any_elem. rewrite Ety.
       destruct (v_clazz var); [discriminate|]. destruct (v_tokens_factory var); [discriminate|].
       destruct (v_factory var); [discriminate|]. destruct (v_default var); try discriminate.
-      destruct (v_sequence var); [discriminate|].
       repeat (split; [first [reflexivity|assumption]|]). exact Hany.
     - left. exists k. peel H1 H3. peel H1 H2. split; [reflexivity|].
       destruct (v_clazz var) as [k'|]; cbn in H1; [|discriminate]. apply N.eqb_eq in H1. subst k'.
@@ -1822,7 +1821,7 @@ Section Gen.
               by (destruct Hty2 as [H|[H|H]]; [left; left; exact H|left; right; exact H|right; exact H]).
             clear Hty2. destruct Hty3 as [Hty2|Hae].
             2:{ (* an xs:anyType field holding a str: plain text, no xsi:type *)
-                destruct Hae as [Htys [Hcl [Htf [Hfac [Hnl [Hdf [Hsq Hat]]]]]]].
+                destruct Hae as [Htys [Hcl [Htf [Hfac [Hnl [Hdf Hat]]]]]].
                 destruct Hsrc as [Hw|[f0 [t0 [l0 [Hf0 _]]]]]; cbn [fst snd] in *; [|congruence].
                 unfold pair_whole in Hw. cbn [fst snd] in Hw. rewrite <- Hw in Hfv0.
                 unfold Fits.fits_elem in Hfv0. rewrite Hfac, Htf in Hfv0.
